@@ -13,6 +13,8 @@ CODEC_MODEL = ["gen/Consts.v", "model/Bytes.v", "model/Errors.v", "model/Codec.v
 
 CACHE_MODEL = ["model/Bytes.v", "model/Errors.v", "model/CacheModel.v", "corr/CorrBase.v", "corr/CacheCorr.v"]
 
+FSCRASH_MODEL = ["gen/Consts.v", "model/Bytes.v", "model/Errors.v", "model/FsCrash.v", "corr/CorrBase.v", "corr/FsCrashCorr.v"]
+
 PROPS = {
     "C09": {
         "prop_file": "props/C09.v",
@@ -47,5 +49,25 @@ PROPS = {
                 "trivial = strings shorter than 2 bytes",
         "assumptions": ["text/template, logging and io.Writer are outside the decoder and assumed panic-free"],
         "widen_n": 1500,
+    },
+    "C12": {
+        "prop_file": "props/C12.v",
+        "files": ["proofs/BytesProofs.v", "proofs/FsCrashProofs.v", "props/C12.v"],
+        "model_files": FSCRASH_MODEL,
+        "drivers": [{"name": "fscrash", "n_quick": 40, "n_thorough": 300}],
+        "rule": "(1) the real fsDb.Put run in a child process under strace (6 fixed + n/5 random values of 0..300 bytes, one of 72000 bytes, STATE and USERDATA keys, one "
+                "Put whose record name is a directory so the rename fails): the system calls on the store directory, abstracted to CreateTemp/Write/Chmod/Close/Rename/Remove/OpenTrunc, "
+                "must equal the model's put_ops; (2) 5 fixed + n (previous,new) pairs of real persisted session records (engine app of 5 nodes over fsDb, histories of 1-5 requests, "
+                "2 other sessions + 1 userdata file in the store; kinds: pair, first save, record only under the legacy name, stale temp file present, session id '.tmp-42'): every crash state "
+                "of put_ops with partial-write lengths {0,1,half,len-1,len} (thorough: every length up to 96, else 32 samples) is materialised in a scratch directory and the real "
+                "Persister.Load, the real Dump and a fresh engine's Exec+Flush+Finish are run on it; (2b) 2+n/10 pairs where the real Put is killed (SIGKILL injected by strace on entry to "
+                "write/fchmod/renameat, and not killed); self-test (prelude, not counted): the same for the pre-repair operation list and an strace of an old-style WriteFile, which must be flagged/rejected. "
+                "distinct by (kind, session, previous record, new record, post-crash input) resp. trace parameters; no case is trivial",
+        "assumptions": ["crash = process death: the kernel's view of the directory (page cache) survives; power loss is not modelled and the code issues no fsync - nothing is claimed about what reaches the disk",
+                        "POSIX semantics assumed, not verified: rename(2) within one directory replaces the target atomically; open(O_CREAT|O_EXCL) creates an empty file under an unused name; write(2) may transfer any prefix of its buffer; open(O_TRUNC) empties at once",
+                        "the record format (fxamacker/cbor) is abstract: 'valid b' = Deserialize accepts b; the theorems take 'valid old', 'valid new' (and 'valid [] = false' for the refutation) as hypotheses; the harness checks them, and that every sampled strict prefix of a record fails to load, on every generated record",
+                        "session keys contain no '/' (path.Join is then plain concatenation; the '/' traversal is the recorded C11 fs finding) and the session key does not start with '.tmp-' (see findings)"],
+        "trusted_extra": ["strace (system call log of the child process) and the driver's abstraction of its output into fsops (fscrash.go: fcAbstract)"],
+        "widen_n": 120,
     },
 }
